@@ -516,7 +516,7 @@ func checkFrontEndInit(c *report.Ctx) {
 	for _, h := range an.WithAnon(f) {
 		held := an.NewHeld(h)
 		for _, call := range an.CallsTo(h, "M/cmd/aws-lambda-rie.Sandbox.Invoke") {
-			c.Check("R-LOCK", "M/cmd/aws-lambda-rie.InvokeHandler/init-mutex-not-held-across-invoke", "the initialisation mutex is released before the invocation itself (a second caller reaches the reservation test immediately)", !held.At(call)[mu] && !held.Defers[mu], an.InstrPos(call), 1, "held at Invoke: %s; deferred unlock in the same function: %v", fmtSet(held.At(call)), held.Defers[mu])
+			c.Check("R-LOCK", "M/cmd/aws-lambda-rie.InvokeHandler/init-mutex-not-held-across-invoke", "the initialisation mutex is released before the invocation itself (a second caller reaches the reservation test immediately)", !held.At(call)[mu] && !held.AtExit[mu], an.InstrPos(call), 1, "held at Invoke: %s; deferred unlock in the same function: %v", fmtSet(held.At(call)), held.AtExit[mu])
 		}
 	}
 	// other writers of initDone
